@@ -4,39 +4,48 @@ import core, tlc
 import lexfam, prattfam as pf
 
 
-def supervised_replay(run, name, path, kind, total, timeout=300):
-    """Run total-replay in a child process; if the child dies (abort / stack exhaustion) or hangs, bisect to the input."""
+def supervised_replay(run, name, path, kind, total, timeout=300, max_restarts=4):
+    """Run total-replay in a child process that announces each input before running it; if the child dies (abort / stack
+    exhaustion) or hangs, the announced input is the culprit and the replay resumes after it."""
     core.build_harness("dev")
-    pending = [(0, total)]
-    ran = 0
-    while pending:
-        lo, hi = pending.pop()
-        if lo >= hi:
-            continue
+    start, restarts, ran = 0, 0, 0
+    recs = None
+    while start < total:
         try:
-            p = subprocess.run([core.vh_path(), "total-replay", path, "--kind", kind, "--seed", str(run.seed), "--from", str(lo), "--to", str(hi)],
+            p = subprocess.run([core.vh_path(), "total-replay", path, "--kind", kind, "--seed", str(run.seed), "--from", str(start), "--to", str(total)],
                                cwd=core.VERIF, stdout=subprocess.PIPE, stderr=subprocess.PIPE, text=True, timeout=timeout)
             rc, out, timed = p.returncode, p.stdout, False
         except subprocess.TimeoutExpired as e:
             rc, out, timed = -1, (e.stdout or b"").decode() if isinstance(e.stdout, bytes) else (e.stdout or ""), True
-        lines = [json.loads(l) for l in out.splitlines() if l.startswith("{")]
-        for l in lines:
-            if "panic" in l:
-                run.violation("C01/panic", "%s on input %r" % (l["what"], l["text"][:200]), {"family": "total", "text": l["text"], "what": l["what"]})
-        if rc == 0 and any("summary" in l for l in lines):
-            ran += hi - lo
-            continue
         if rc == 2:
             raise tlc.ToolError("total-replay tool error: %s" % p.stderr[-500:])
-        # the child died or hung somewhere in lo..hi
-        if hi - lo == 1:
+        last_at, done = None, False
+        for l in out.splitlines():
+            if not l.startswith("{"):
+                continue
+            try:
+                o = json.loads(l)
+            except Exception:
+                continue
+            if "at" in o:
+                last_at = o["at"]
+            elif "panic" in o:
+                run.violation("C01/panic", "%s on input %r" % (o["what"], o["text"][:200]), {"family": "total", "text": o["text"], "what": o["what"]})
+            elif "summary" in o:
+                done = True
+        if rc == 0 and done:
+            ran += total - start
+            break
+        culprit = last_at if last_at is not None else start
+        if recs is None:
             recs = core.read_ndjson(path)
-            run.violation("C01/abort" if not timed else "C01/hang", "process %s on input #%d of %s" % ("hung" if timed else "aborted (signal/exit %s)" % rc, lo, name),
-                          {"family": "total", "record": recs[lo], "kind": kind, "outcome": "timeout" if timed else "abort"})
-            ran += 1
-            continue
-        mid = (lo + hi) // 2
-        pending += [(lo, mid), (mid, hi)]
+        run.violation("C01/abort" if not timed else "C01/hang", "process %s on input #%d of %s" % ("hung" if timed else "aborted (signal/exit %s)" % rc, culprit, name),
+                      {"family": "total", "record": recs[culprit], "kind": kind, "outcome": "timeout" if timed else "abort"})
+        ran += culprit - start + 1
+        start = culprit + 1
+        restarts += 1
+        if restarts > max_restarts:
+            break
     run.traces += ran
     run.evaluations += ran
     run.leg("R:total/" + name, inputs=ran)
